@@ -71,7 +71,7 @@ def _marker_like_lines(nbs):
     return n
 
 
-def render_checks(E, what, fn, out, use_color, props, known=(), nbs=()):
+def render_checks(E, what, fn, out, use_color, props, known=(), nbs=(), word_diff=False):
     try:
         fn()
     except Exception as ex:  # noqa
@@ -79,7 +79,10 @@ def render_checks(E, what, fn, out, use_color, props, known=(), nbs=()):
         tb = traceback.extract_tb(ex.__traceback__)
         where = "%s:%d %s" % (tb[-1].filename.split("/nbdime/")[-1], tb[-1].lineno, tb[-1].name)
         sig = "%s: %s @ %s" % (type(ex).__name__, str(ex)[:160], where)
-        if "F12" in known and common.match_exception_finding(("F12",), sig) and _marker_like_lines(nbs) >= 3:
+        # F12 is specific: git renderer in --color-words mode (content lines are
+        # unprefixed there) and a text with >= 3 tool-message-looking lines
+        if "F12" in known and word_diff and common.match_exception_finding(("F12",), sig) \
+                and _marker_like_lines(nbs) >= 3:
             E.known("F12")
             return None
         if "C16" in props:
@@ -123,7 +126,8 @@ def make_render_diff(templates, renderer="git", lo=0, hi=64, colors=(0, 1), word
         E.goal("empty-diff", len(d) == 0)
         E.goal("nonempty-diff", len(d) > 0)
         text = render_checks(E, "diff", lambda: pretty_print_notebook_diff("a.ipynb", "b.ipynb", a, d, cfg),
-                             out, use_color, props, known, (a, b))
+                             out, use_color, props, known, (a, b),
+                             word_diff=(renderer == "git" and use_color and cfg.color_words))
         if text is None:
             return
         if "C16" in props:
